@@ -42,83 +42,7 @@ func runC16(c *Ctx) {
 	})
 
 	// ---- C16.2
-	c.Rule("C16.2", "single use, owner only: every non-nil return of GetTCPConnection is on the edge a.userID == userID ∧ tcpConnection.isBound.Swap(true) == false for the looked-up connection; the Swap call is dominated by a.userID == userID", 2)
-	{
-		fn := w.Func("allocation", "Manager", "GetTCPConnection")
-		uid := w.Field("allocation", "Allocation", "userID")
-		isUserEq := func(f Fact) bool {
-			if f.Op != "==" || !f.Truth {
-				return false
-			}
-			for _, pair := range [][2]ssa.Value{{f.X, f.Y}, {f.Y, f.X}} {
-				if _, fl, ok := fieldLoad(pair[0]); ok && fl == uid && w.sameKey(pair[1], fn.Params[1]) {
-					return true
-				}
-			}
-			return false
-		}
-		c.Anchor("C16.2", "return gate")
-		bad := ""
-		n := 0
-		for _, r := range returnsOf(fn) {
-			v := stripIface(w.resolveLoad(r.Results[0]))
-			if isNilConst(v) {
-				continue
-			}
-			n++
-			okUser, okSwap := false, false
-			for _, f := range w.factsAt(r) {
-				if isUserEq(f) {
-					okUser = true
-				}
-				if f.Op == "true" && !f.Truth {
-					if call, _ := callOf(f.X); call != nil && call.Call.StaticCallee() != nil && call.Call.StaticCallee().String() == "(*sync/atomic.Bool).Swap" {
-						if b, fl, ok := fieldLoadAddr(call.Call.Args[0]); ok && fl.Name() == "isBound" && w.sameKey(b, v) {
-							if k, isC := call.Call.Args[1].(*ssa.Const); isC && k.Value != nil && k.Value.String() == "true" {
-								okSwap = true
-							}
-						}
-					}
-				}
-			}
-			if !okUser {
-				bad = "a connection is returned at " + w.instrPos(r) + " without the test a.userID == userID"
-			} else if !okSwap {
-				bad = "a connection is returned at " + w.instrPos(r) + " without isBound.Swap(true) having returned false for that connection: it could be bound twice"
-			}
-		}
-		if bad == "" && n > 0 {
-			c.OK("C16.2", fname(fn), "return gate", w.pos(fn.Pos()), "non-nil only under userID match ∧ Swap(true)==false")
-		} else {
-			if bad == "" {
-				bad = "never returns a connection"
-			}
-			c.Bad("C16.2", fname(fn), "return gate", w.pos(fn.Pos()), bad)
-		}
-		c.Anchor("C16.2", "swap order")
-		nSwap := 0
-		w.eachInstr(fn, func(in ssa.Instruction) {
-			call, ok := in.(*ssa.Call)
-			if !ok || call.Call.StaticCallee() == nil || call.Call.StaticCallee().String() != "(*sync/atomic.Bool).Swap" {
-				return
-			}
-			nSwap++
-			okUser := false
-			for _, f := range w.factsAt(in) {
-				if isUserEq(f) {
-					okUser = true
-				}
-			}
-			if okUser {
-				c.OK("C16.2", fname(fn), "swap order", w.instrPos(in), "the single use is consumed only after the user matched")
-			} else {
-				c.Bad("C16.2", fname(fn), "swap order", w.instrPos(in), "isBound.Swap(true) runs before / without the user test: a ConnectionBind by another user is refused but burns the connection's single use (the owner can no longer bind it and the bind timer no longer reaps it)")
-			}
-		})
-		if nSwap == 0 {
-			c.Bad("C16.2", fname(fn), "swap order", w.pos(fn.Pos()), "no isBound.Swap: single use is not enforced")
-		}
-	}
+	ruleSingleUseOwner(c, "C16.2")
 
 	// ---- C16.3 / C16.4
 	add := w.Func("allocation", "Manager", "addTCPConnection")
@@ -487,3 +411,86 @@ func connRole(w *World, v ssa.Value, tcpGet *ssa.Function) string {
 func ruleConnHandlerGuardAs(c *Ctx, rule string) { ruleConnHandlerGuard(c, rule) }
 
 var _ = types.Identical
+
+func ruleSingleUseOwner(c *Ctx, rule string) {
+	w := c.W
+	// ---- C16.2
+	c.Rule(rule, "single use, owner only: every non-nil return of GetTCPConnection is on the edge a.userID == userID ∧ tcpConnection.isBound.Swap(true) == false for the looked-up connection; the Swap call is dominated by a.userID == userID", 2)
+	{
+		fn := w.Func("allocation", "Manager", "GetTCPConnection")
+		uid := w.Field("allocation", "Allocation", "userID")
+		isUserEq := func(f Fact) bool {
+			if f.Op != "==" || !f.Truth {
+				return false
+			}
+			for _, pair := range [][2]ssa.Value{{f.X, f.Y}, {f.Y, f.X}} {
+				if _, fl, ok := fieldLoad(pair[0]); ok && fl == uid && w.sameKey(pair[1], fn.Params[1]) {
+					return true
+				}
+			}
+			return false
+		}
+		c.Anchor(rule, "return gate")
+		bad := ""
+		n := 0
+		for _, r := range returnsOf(fn) {
+			v := stripIface(w.resolveLoad(r.Results[0]))
+			if isNilConst(v) {
+				continue
+			}
+			n++
+			okUser, okSwap := false, false
+			for _, f := range w.factsAt(r) {
+				if isUserEq(f) {
+					okUser = true
+				}
+				if f.Op == "true" && !f.Truth {
+					if call, _ := callOf(f.X); call != nil && call.Call.StaticCallee() != nil && call.Call.StaticCallee().String() == "(*sync/atomic.Bool).Swap" {
+						if b, fl, ok := fieldLoadAddr(call.Call.Args[0]); ok && fl.Name() == "isBound" && w.sameKey(b, v) {
+							if k, isC := call.Call.Args[1].(*ssa.Const); isC && k.Value != nil && k.Value.String() == "true" {
+								okSwap = true
+							}
+						}
+					}
+				}
+			}
+			if !okUser {
+				bad = "a connection is returned at " + w.instrPos(r) + " without the test a.userID == userID"
+			} else if !okSwap {
+				bad = "a connection is returned at " + w.instrPos(r) + " without isBound.Swap(true) having returned false for that connection: it could be bound twice"
+			}
+		}
+		if bad == "" && n > 0 {
+			c.OK(rule, fname(fn), "return gate", w.pos(fn.Pos()), "non-nil only under userID match ∧ Swap(true)==false")
+		} else {
+			if bad == "" {
+				bad = "never returns a connection"
+			}
+			c.Bad(rule, fname(fn), "return gate", w.pos(fn.Pos()), bad)
+		}
+		c.Anchor(rule, "swap order")
+		nSwap := 0
+		w.eachInstr(fn, func(in ssa.Instruction) {
+			call, ok := in.(*ssa.Call)
+			if !ok || call.Call.StaticCallee() == nil || call.Call.StaticCallee().String() != "(*sync/atomic.Bool).Swap" {
+				return
+			}
+			nSwap++
+			okUser := false
+			for _, f := range w.factsAt(in) {
+				if isUserEq(f) {
+					okUser = true
+				}
+			}
+			if okUser {
+				c.OK(rule, fname(fn), "swap order", w.instrPos(in), "the single use is consumed only after the user matched")
+			} else {
+				c.Bad(rule, fname(fn), "swap order", w.instrPos(in), "isBound.Swap(true) runs before / without the user test: a ConnectionBind by another user is refused but burns the connection's single use (the owner can no longer bind it and the bind timer no longer reaps it)")
+			}
+		})
+		if nSwap == 0 {
+			c.Bad(rule, fname(fn), "swap order", w.pos(fn.Pos()), "no isBound.Swap: single use is not enforced")
+		}
+	}
+
+}
